@@ -230,6 +230,11 @@ func TestVF_C03(t *testing.T) {
 							"sig-nil":       func(m *pb.Message) { m.Signature = nil; m.Key = nil },
 							"sig-flip":      func(m *pb.Message) { m.Signature[0] ^= 1 },
 							"sig-garbage":   func(m *pb.Message) { m.Signature = []byte{9, 9, 9} },
+							"sig-empty":     func(m *pb.Message) { m.Signature = []byte{} }, // present on the wire, zero length
+							"key-empty":     func(m *pb.Message) { m.Key = []byte{} },
+							"from-empty":    func(m *pb.Message) { m.From = []byte{} },
+							"seqno-empty":   func(m *pb.Message) { m.Seqno = []byte{} },
+							"data-empty":    func(m *pb.Message) { m.Data = []byte{} },
 							"sig-swapped":   func(m *pb.Message) { m.Signature = mkValid(k).Signature },
 							"key-nil":       func(m *pb.Message) { m.Key = nil },
 							"key-garbage":   func(m *pb.Message) { m.Key = []byte{7, 7} },
